@@ -735,7 +735,7 @@ pub fn spec() -> PropSpec {
         rule: "for 11 base strings (text, padded, accented, invalid UTF-8, binary counters, empty) every NEIGHBOUR a canonicalisation could merge with it (each single-bit flip of the first 12 bytes, 11 bytes appended / prepended, first / last byte dropped, reversed, doubled, ASCII case folding, BOM, U+FFFD, lossy UTF-8 conversion, hex form, NFC/NFD, trimming; empty-vs-epoch and swapped components), as measurement and as epoch, t in {1,3}; and every pair (epoch || prefix, t1) / (epoch, t2) with prefix || enc(t1) == enc(t2) for the variable-width encodings LEB128, decimal, minimal LE/BE, hexadecimal: randomness, tag and key of the two triples differ",
         gen: |_| vec![json!({})],
         run: run_neighbours,
-        min_counts: &[("evaluations", 3000), ("framing_pairs", 30)],
+        min_counts: &[("evaluations", 2000), ("framing_pairs", 30)],
       },
       Check {
         name: "output-buffers",
